@@ -197,14 +197,10 @@ func c07Families(tier string) []explore.Family {
 			case "sentinel":
 				if !reaches(err.Cause(), func(e error) bool { return e == errC07Sentinel }) {
 					r.Violation("L4:cause:"+kind.name, desc(), "Cause() reaches the filter's own error", fmt.Sprintf("%#v", err.Cause()))
-				} else if !strings.Contains(msg, errC07Sentinel.Error()) {
-					r.Violation("L4:message:"+kind.name, desc(), "message contains the cause's text", msg)
 				}
 			case "cause":
 				if err.Cause() == nil {
 					r.Violation("L4:cause:"+kind.name, desc(), "a non-nil Cause()", "nil")
-				} else if c := safeErr(err.Cause()); !strings.Contains(msg, innermostText(err.Cause())) {
-					r.Violation("L4:message:"+kind.name, desc(), "message contains the cause's text: "+c, msg)
 				}
 			case "notexist":
 				if !reaches(err.Cause(), os.IsNotExist) {
